@@ -261,3 +261,21 @@ Proof.
   split; [vm_compute; reflexivity|]. split; [vm_compute; reflexivity|]. split; [reflexivity|]. split; [reflexivity|].
   intros t' [<-|[<-|[]]]; vm_compute; discriminate.
 Qed.
+
+(* tracing off (trace=False / [] / omitted): the Trace objects come back untouched and the state is the untraced one *)
+Example tx_trace_off :
+  truthy (TFlag false) = false /\ truthy (TList []) = false /\ truthy TNone = false /\
+  f_traced_solve_t tx_scripts tx_cfg (TFlag false) true tx_desc (tx_opts 0 5) 1 tx_state tx_tr0
+  = (let '(s', out) := f_solve_t tx_scripts tx_desc (tx_opts 0 5) 1 tx_state in ((s', tx_tr0), out)).
+Proof. repeat (split; [reflexivity|]). vm_compute. reflexivity. Qed.
+
+(* solve_period(2001, trace=True): list.index finds position 1, where trace_t cannot fail (tx_ready) *)
+Example tx_solve_period_label :
+  locate_index tx_span 2001 = LInt 1 /\ locate_index tx_span 1999 = LFail /\
+  snd (traced_solve_period_all float PrimFloat.sub PrimFloat.abs PrimFloat.ltb fisfin fzero tx_cfg (TFlag true) false
+         (s_ev 3 tx_scripts) (s_before 3 tx_scripts) (s_after 3 tx_scripts) Z (locate_index tx_span) tx_desc (tx_opts 0 5)
+         2001 tx_state tx_tr0) = Ret true /\
+  traced_solve_period_all float PrimFloat.sub PrimFloat.abs PrimFloat.ltb fisfin fzero tx_cfg (TFlag true) false
+         (s_ev 3 tx_scripts) (s_before 3 tx_scripts) (s_after 3 tx_scripts) Z (locate_index tx_span) tx_desc (tx_opts 0 5)
+         1999 tx_state tx_tr0 = ((tx_state, tx_tr0), Raise KeyError).
+Proof. split; [reflexivity|]. split; [reflexivity|]. split; vm_compute; reflexivity. Qed.
